@@ -182,3 +182,46 @@ AX_MEM = [
     z3.ForAll([_li, _xi], z3.Implies(ListInt.len(_li) <= 0, z3.Not(MemI(_li, _xi))), patterns=[MemI(_li, _xi)]),
 ]
 LEMMAS["def.MemI"] = "list membership: definitional axioms (elimination with a skolem position, introduction, append, empty)"
+
+
+# ---------------------------------------------------------------------- base-4 keys (space_unique_key)
+digit4 = z3.Function("digit4", I, I, I)              # digit4(n, i): the i-th base-4 digit of the natural number n
+lor_shl = z3.Function("lor_shl", I, I, I, I)         # n | (d << sh)
+vidx = z3.Function("vidx", Net, Name, I)             # index of a variable in the network (int(VariableId))
+_n4, _d4, _sh4, _i4 = z3.Int("n!4"), z3.Int("d!4"), z3.Int("sh!4"), z3.Int("i!4")
+AX_KEY = [
+    # L10.digit_lor_shift (Lean: Biobalm/Key.lean digit_lor_shift): setting an empty digit
+    z3.ForAll([_n4, _d4, _sh4, _i4], z3.Implies(
+        z3.And(_n4 >= 0, 0 <= _d4, _d4 < 4, _sh4 >= 0, _sh4 % 2 == 0, digit4(_n4, _sh4 / 2) == 0, _i4 >= 0),
+        z3.And(lor_shl(_n4, _d4, _sh4) >= 0,
+               digit4(lor_shl(_n4, _d4, _sh4), _i4) == z3.If(_i4 == _sh4 / 2, _d4, digit4(_n4, _i4)))),
+        patterns=[digit4(lor_shl(_n4, _d4, _sh4), _i4)]),
+    z3.ForAll([_n4, _d4, _sh4], z3.Implies(z3.And(_n4 >= 0, 0 <= _d4, _sh4 >= 0), lor_shl(_n4, _d4, _sh4) >= 0),
+              patterns=[lor_shl(_n4, _d4, _sh4)]),
+    z3.ForAll([_i4], digit4(0, _i4) == 0, patterns=[digit4(0, _i4)]),
+]
+LEMMAS.update({
+    "L10.digit_lor_shift": "n >= 0, d < 4, digit sh/2 of n is 0  ==>  n | (d << sh) has digit sh/2 = d and all other digits unchanged   [Lean: Biobalm/Key.lean digit_lor_shift]",
+    "L10.digits_determine_number": "two naturals with equal base-4 digits are equal   [Lean: Biobalm/Key.lean (Nat.eq_of_testBit_eq)]",
+    "def.SKey": "SKey(N,S) is the natural number whose digit vidx(N,v) is S[v]+2 for v in dom S and 0 elsewhere (definition; keyFold_eq_keyOf in Lean)",
+})
+
+
+def skey_def(N, S):
+    v = z3.Const("v!k", Name)
+    i = z3.Int("i!k")
+    return z3.And(SKey(N, S) >= 0,
+                  z3.ForAll([v], z3.Implies(isvar(N, v), digit4(SKey(N, S), vidx(N, v)) == z3.If(S[v] >= 0, S[v] + 2, 0))),
+                  z3.ForAll([i], z3.Implies(z3.And(i >= 0, z3.ForAll([v], z3.Implies(isvar(N, v), vidx(N, v) != i))),
+                                            digit4(SKey(N, S), i) == 0)))
+
+
+def digits_ext(a, b):
+    i = z3.Int("i!x")
+    return z3.Implies(z3.And(a >= 0, b >= 0, z3.ForAll([i], z3.Implies(i >= 0, digit4(a, i) == digit4(b, i)))), a == b)
+
+
+def vidx_facts(N):
+    v, w = z3.Const("v!i", Name), z3.Const("w!i", Name)
+    return z3.And(z3.ForAll([v], z3.Implies(isvar(N, v), vidx(N, v) >= 0)),
+                  z3.ForAll([v, w], z3.Implies(z3.And(isvar(N, v), isvar(N, w), vidx(N, v) == vidx(N, w)), v == w)))
